@@ -120,7 +120,9 @@ impl<'a> Gen<'a> {
             5 => (format!("R{}", hex(&refsrv::font_map(sid))), "FM".into()),
             6 => (format!("R{}", hex(&refsrv::error_info(sid, self.r.next() as u32))), "EI".into()),
             7 => { let n = self.r.below(6) as usize; let b = self.r.bytes(n); (format!("R{}", hex(&refsrv::share_data(sid, *self.r.pick(&[0x26u8, 0x02, 0x1b, 0x36]), &b))), "UD".into()) }
-            8 => (format!("R{}", hex(&refsrv::deactivate_all(sid, b"RDP\0"))), "DE".into()),
+            // deactivate-all: the source descriptor is opaque bytes (not necessarily text)
+            8 => { let src: Vec<u8> = match self.r.below(5) { 0 => vec![], 1 => vec![0xff, 0xfe, 0x00], 2 => vec![0x80], 3 => { let n = self.r.below(6) as usize; self.r.bytes(n) } _ => b"RDP\0".to_vec() };
+                   (format!("R{}", hex(&refsrv::deactivate_all(sid, &src))), "DE".into()) }
             9 => { let n = self.r.below(4) as usize; let rects: Vec<Rect> = (0..n).map(|_| self.rect()).collect(); (format!("F{}:{}", self.r.below(4), hex(&refsrv::fp_bitmap_update(&rects))), format!("FB{}", n)) }
             _ => {
                 let u = match self.r.below(4) { 0 => refsrv::fp_update(3, &[]), 1 => refsrv::fp_update(5, &[]), 2 => { let k = self.r.below(6) as usize; refsrv::fp_update(*self.r.pick(&[0u8, 2, 4, 6, 8, 0xa, 0xb, 7, 0xd]), &self.r.bytes(k)) } _ => refsrv::fp_update(9, &refsrv::cat(&[&refsrv::le16(0), &refsrv::le32(0), &refsrv::le16(1), &refsrv::le16(1), &refsrv::le16(1), &refsrv::le16(2), &[0xaa, 0xbb], &[0xcc], &[0]])) };
